@@ -4,6 +4,7 @@ From K Require Import Lib.Types Model.Machine Model.Alu Model.Exec Spec.ISA Proo
 From K Require Import Model.Bus Model.Cost Model.Addressing Proofs.RegProofs Proofs.StepProofs.
 From K Require Import Model.Cost Model.Addressing Model.Exec Proofs.MemProofs Proofs.StepProofs Proofs.CtlProofs Proofs.StepRefines.
 From K Require Import Proofs.MovProofs Proofs.StepRefinesCtl Proofs.StepRefines2.
+From K Require Import Proofs.StepRefines4.
 Open Scope Z_scope.
 
 (* ADD / SUB / CMP / ADDX: for every width 8, 16, 32 (ADDX: 8), all operands and every CCR value the
@@ -138,6 +139,16 @@ Theorem step_divxu_byte :
     step s = Ok n (set_opc (pc s) s').
 Proof. exact step_divxu_b_proof. Qed.
 
+(* ADD CMP SUB OR XOR AND .W #xx:16,Rd - both instruction words in memory *)
+Theorem step_arith_logic_immediate_word :
+  forall s w d w2 w3 w4 o imm rd n,
+    cpu_ok s -> bus_bytes_ok s -> fault s = false -> pc s mod 2 = 0 -> 0 <= pc s -> pc s + 4 < 4294967296 ->
+    mem_read SW s (pc s) = Some w -> mem_read SW s (pc s + 2) = Some d ->
+    decode_ref w d w2 w3 w4 = Some (IAlu2I o SW imm rd, 4) ->
+    cs KI 2 (post_fetch2 s) = Ok n (post_fetch2 s) ->
+    exists s', sem_ref (IAlu2I o SW imm rd) 4 s = Some s' /\ step s = Ok n (set_opc (pc s + 2) s').
+Proof. exact step_alu2_imm_w_proof. Qed.
+
 Print Assumptions arith2_kernel.
 Print Assumptions arith1_kernel.
 Print Assumptions divxu_kernel.
@@ -150,3 +161,4 @@ Print Assumptions step_arith_logic_immediate_byte.
 Print Assumptions step_adds_subs.
 Print Assumptions step_mulxu.
 Print Assumptions step_divxu_byte.
+Print Assumptions step_arith_logic_immediate_word.
